@@ -179,7 +179,7 @@ def tlc_mc(module, cfg, workers=NCPU, timeout=900, extra=(), xmx="16g", coverage
     return r
 
 
-_re_guard = re.compile(r'<<"GUARDFAIL", "([^"]+)", (\d+)(?:, "([^"]*)")?>>')
+_re_guard = re.compile(r'^<<"GUARDFAIL", "([^"]+)", (\d+)(?:, (.*))?>>\s*$', re.M)
 
 
 def tlc_tv(trace_path, module="ApiTrace", cfg="ApiTrace.cfg", timeout=1200, xmx="8g", extra_env=None, nlines=None):
